@@ -83,6 +83,9 @@ func c04Base(r *fw.Rand, m wkbMode) ([]byte, []ref.Field, *model.G) {
 	}
 }
 
+// the re-encoding handed out for the previous case of this worker, and a copy of it
+var c04Held, c04HeldCopy []byte
+
 func putU32(b []byte, off int, be bool, v uint32) {
 	if be {
 		binary.BigEndian.PutUint32(b[off:], v)
@@ -215,10 +218,25 @@ func c04JudgeOpt(c *fw.Ctx, m wkbMode, cfg limitCfg, in []byte, class string, de
 	c.Distinct(fmt.Sprintf("accepted/%s/%s/%s", m.name, class, model.FromGeom(t).Sig()))
 	// canonical: encode -> decode gives an equal geometry
 	var re []byte
+	if c.R.Chance(1, 8) {
+		codecNoise(c)
+	}
 	if c.Guard("panic", func() { re, err = m.marshal(t) }) {
 		return
 	}
 	c.Eval(1)
+	// the re-encoding of the previous case is still held: it must not have changed
+	if c04Held != nil {
+		c.Count("held_reencodings_rechecked")
+		if !bytes.Equal(c04Held, c04HeldCopy) {
+			c.Fail("result-invalidated", "the bytes returned by an earlier Marshal (of another geometry) changed when this one was encoded")
+			c04Held = nil
+			return
+		}
+	}
+	if err == nil {
+		c04Held, c04HeldCopy = re, append([]byte(nil), re...)
+	}
 	if err != nil {
 		c.Fail("reencode-failed", "a decoded geometry cannot be re-encoded: %v", err)
 		return
